@@ -11,7 +11,6 @@ package mqttproxy
 
 import (
 	"fmt"
-	"strings"
 	"testing"
 	"testing/synctest"
 
@@ -33,6 +32,13 @@ func TestVerifC17mqtt(t *testing.T) {
 			run := func(c *mc.Ctx) {
 				vb := vNewBroker(&Spec{MaxAllowedConnection: capN})
 				defer vb.close()
+				var all []*vClient // every connection of this execution: closed at the end, or their reader goroutines pile up
+				defer func() {
+					for _, k := range all {
+						k.conn.Close()
+					}
+					synctest.Wait()
+				}()
 				cur := map[string]*vClient{} // reference: the connected (accepted, un-superseded, un-dropped) connection per id
 				old := map[string][]*vClient{} // superseded connections whose links are still open
 				var hist []string
@@ -53,6 +59,7 @@ func TestVerifC17mqtt(t *testing.T) {
 						hist = append(hist, "connect-"+id)
 						_, takeover := cur[id]
 						cl := vb.connect(id, id == "a") // id a uses clean sessions, b and c persistent ones
+						all = append(all, cl)
 						wantAccept := takeover || len(cur) < capN
 						if takeover && len(cur) >= capN && cl.connack == packets.ErrRefusedServerUnavailable {
 							// reading: the statement does not say whether a takeover of an existing id AT the cap is
@@ -99,7 +106,7 @@ func TestVerifC17mqtt(t *testing.T) {
 						c.Failf("connected-clients-differ", "cap %d, history %v: broker has %d connected clients, reference %d", capN, hist, n, len(cur))
 					}
 				}
-				c.Outcome(strings.Join(hist, ","))
+				c.Outcome(fmt.Sprintf("connected=%d superseded-open=%d last=%s", len(cur), len(old["a"])+len(old["b"])+len(old["c"]), hist[len(hist)-1]))
 			}
 			name := fmt.Sprintf("mqtt-cap%d", capN)
 			jobs = append(jobs, mc.Job{Name: name,
